@@ -12,7 +12,7 @@ Inductive mfun :=
 | FCopy               (* return a pointer-disjoint deep copy of a *)
 | FInc (k : Z)        (* ints / strings / pointers to them: +k in a fresh object; pointer to struct: fresh struct with every such field +k *)
 | FZero               (* pointers, slices, maps: the typed nil of the same type; everything else unchanged *)
-| FUntypedNil         (* return nil (the nil interface) -- outside the property's domain, inside the model's *)
+| FUntypedNil         (* return nil (the nil interface): Map stores the zero value of the slot's type *)
 | FNilOn (n : Z).     (* nil interface when a is the scalar n or a pointer to it, otherwise a *)
 
 Definition inc1 (k : Z) (a : gval) : gval :=
@@ -22,10 +22,17 @@ Definition inc1 (k : Z) (a : gval) : gval :=
   | _ => a
   end.
 
+(* the same on a struct field, which may be interface-typed *)
+Definition inc_slot (k : Z) (s : gval) : gval :=
+  match s with
+  | GIface v => GIface (inc1 k v)
+  | _ => inc1 k s
+  end.
+
 Definition apply_mfun (f : mfun) (a : gval) : gval :=
   match f with
   | FId | FCopy => a
-  | FInc k => match a with GStructPtr fs => GStructPtr (map (inc1 k) fs) | _ => inc1 k a end
+  | FInc k => match a with GStructPtr fs => GStructPtr (map (inc_slot k) fs) | _ => inc1 k a end
   | FZero => match a with
              | GNilPtr | GStructPtr _ | GPtr _ => GNilPtr
              | GSlice _ _ => GSlice true []
@@ -62,7 +69,7 @@ Fixpoint apply_pfun (p : pfun) (a : gval) : bool :=
                 | _ => false
                 end
   | PField i q => match a with
-                  | GStructPtr fs => match nth_error fs i with Some c => apply_pfun q c | None => false end
+                  | GStructPtr fs => match nth_error fs i with Some c => apply_pfun q (unwrap c) | None => false end
                   | _ => false
                   end
   end.
@@ -71,6 +78,7 @@ Fixpoint apply_pfun (p : pfun) (a : gval) : bool :=
 Definition weight (a : gval) : Z :=
   match a with
   | GNil => 1
+  | GIface _ => 9
   | GNilPtr => 2
   | GStructPtr fs => 3 + Z.of_nat (length fs)
   | GPtr (GScalar _ n) => n
@@ -137,17 +145,11 @@ Definition zip_model (m : bmode) (init : Z) (z : zfun) (x y : gval) : Z * list (
 
 (* ---- cases ---- *)
 Inductive case18 :=
-| CMap (x : gval) (f : mfun) (res : mres) (log : list gval)          (* Map(x, f) = res, f was called on log *)
+| CMap (x : gval) (f : mfun) (res : gval) (log : list gval)          (* Map(x, f) = res, f was called on log *)
 | CAny (x : gval) (p : pfun) (res : bool) (log : list gval)          (* Any(x, p) = res *)
 | CZip (x y : gval) (m : bmode) (init : Z) (f : zfun) (res : Z) (log : list (gval * gval))
-| CIsNil (x : gval) (res : bool).
-
-Definition mres_eqb (a b : mres) : bool :=
-  match a, b with
-  | MRet u, MRet v => gval_eqb u v
-  | MPanic, MPanic => true
-  | _, _ => false
-  end.
+| CIsNil (x : gval) (res : bool)
+| CPanic (x : gval).                                                 (* the real function panicked on x: the model has no panics *)
 
 Fixpoint remove1 (a : gval) (l : list gval) : option (list gval) :=
   match l with
@@ -168,7 +170,7 @@ Definition check18 (c : case18) : bool :=
   match c with
   | CMap x f res log =>
       let (r, l) := rmap (apply_mfun f) x in
-      mres_eqb r res &&
+      gval_eqb r res &&
       match x with
       | GMap _ _ => perm_eqb l log          (* entries are encoded sorted by key on both sides; calls in any order *)
       | _ => list_eqb gval_eqb l log
@@ -178,4 +180,5 @@ Definition check18 (c : case18) : bool :=
   | CZip x y m init f res log =>
       let (r, l) := zip_model m init f x y in Z.eqb r res && list_eqb pair_eqb l log
   | CIsNil x res => Bool.eqb (is_nil x) res
+  | CPanic _ => false
   end.
